@@ -39,7 +39,8 @@ HOOK_COMMITS = [
     "038e1f7 verif hook H1: logging macros compile to nothing under --cfg sozu_verif",
     "2b2dd03 verif hook H2: metrics macros record nothing under --cfg sozu_verif",
     "30c0265 verif hook H3: push_queue/push_event skip the QUEUE thread-local under --cfg sozu_verif",
-    "H4 (mux): public wrappers for private H2/pkawa/converter/serializer kernels under --cfg sozu_verif",
+    "8194c1c verif hook H4 (mux): public wrappers for private H2/pkawa/converter/serializer kernels under --cfg sozu_verif",
+    "80728f6 verif hook H4 (router): public wrapper for select_tree_rule under --cfg sozu_verif",
 ]
 
 REGISTRY["C11"] = {
@@ -74,7 +75,7 @@ REGISTRY["C11"] = {
           "after an under-delimiter prefix the following valid frame is delivered intact", CH),
         K("c11::c11_undecodable_frame_not_wedged", "complete frame with 1..3 undecodable payload bytes followed by a valid frame; unwind 20",
           "undecodable payload => InvalidProtobufMessage, and the channel is not wedged: the next read_message yields the following frame", CH),
-        K("c11::c11_write_grow_bounded_boundaries", "back buffer 12 -> max 24; (earlier 9-byte frames, drained bytes) in {(1,0),(1,9),(2,0),(2,5),(2,14)} concrete, new message 4 symbolic bytes; unwind 14",
+        K("c11::c11_write_grow_bounded_boundaries", "back buffer 12 -> max 24; (earlier 9-byte frames, drained bytes) in {(1,0),(1,9),(2,5),(2,7),(2,9),(2,14)} concrete, new message 4 symbolic bytes; unwind 14",
           "write: Ok => exactly 8+len more pending bytes right behind the old ones; MessageTooLarge only when it cannot fit under max and buffer untouched; earlier bytes intact; capacity <= max", CH),
         K("c11::c11_write_grow_bounded_len4", "same, ALL (frames 0..2, drained 0..9*frames) positions enumerated concretely, contents symbolic; unwind 21",
           "as above, every drain offset", CH, tier="thorough"),
@@ -159,5 +160,30 @@ REGISTRY["C15"] = {
         K("c15::c15_flood_rst_lifetime_step", "arbitrary counters/config, response_started and emitted symbolic; unwind 4",
           "record_rst_lifetime / record_rst_emitted: +1 saturating on exactly the right counters, violation <=> above cap", H2,
           stubs=["std::time::Instant::now", "std::time::Instant::elapsed"], min_covers=2),
+    ],
+}
+
+RT = ["lib/src/router/mod.rs"]
+REGISTRY["C04"] = {
+    "technique": "bounded model checking (Kani/CBMC, SAT) of rule identity, match contracts and the path/method selection kernel of Router::lookup",
+    "level_text": "CBMC decides, for all PREFIX/EQUALS path rules over 1..2 symbolic ASCII bytes, method classes {any, GET, POST}, exact/wildcard/any host rules and all probe paths of 0..3 bytes, that rule equality is exactly kind+string (the identity add/remove use), that the match functions honour their contracts, and that select_tree_rule returns the rule of greatest documented precedence (EQUALS > longest PREFIX, method-specific > method-agnostic) for both insertion orders of two rules. Bounded, not a proof.",
+    "level_note": "Regex rules (regex crate) and the host trie (std HashMap) are outside CBMC's reach: host precedence exact > wildcard > regex, trie pruning and cross-host independence are not decided. Strings are <= 2 bytes, leaves hold 2 rules.",
+    "rule": "C04: one harness per identity relation / match contract / pair-of-rules selection.",
+    "trusted_base": [],
+    "assumptions": ["a leaf never holds two rules with the same (path, method) identity (add_tree_rule de-duplicates; proven sound by c04_path_rule_identity)"],
+    "residual": "host trie (pattern_trie.rs: HashMap children, regex leaves): exact > wildcard > regex host precedence, pruning on removal, unrelated add/remove never changes a route; REGEX path rules; pre/post list order (Vec scan, reached only through Router which owns the trie); leaves with more than 2 rules.",
+    "obligations": [
+        K("c04::c04_path_rule_identity", "two PREFIX/EQUALS rules over 2 symbolic ASCII bytes each; unwind 5",
+          "== is reflexive (on clones), symmetric, and a == b <=> same kind and same string", RT, min_covers=2),
+        K("c04::c04_path_rule_identity_lengths_differ", "rules of 1 vs 2 bytes; unwind 5", "rules with different strings are never equal; each equals its clone", RT),
+        K("c04::c04_method_domain_rule_identity", "MethodRule in {any,GET,POST}; DomainRule in {Any, Exact(2 bytes), Wildcard(2 bytes)}; unwind 6",
+          "equality is exactly same class (+ same string)", RT),
+        K("c04::c04_matches_contract", "rule over 2 symbolic bytes, probe path 0..3 symbolic bytes; unwind 6",
+          "Prefix(n) => n == prefix.len() <= path.len() and path starts with it; Equals => path == pattern; None otherwise; MethodRule None => All, same => Equals, other => None", RT),
+        K("c04::c04_domain_matches_contract", "host 0..5 symbolic bytes vs *.io / a.io / Any; unwind 8",
+          "wildcard matches exactly one non-empty dot-free leftmost label; exact is byte equality", RT),
+        K("c04::c04_selection_order_independent_2_2", "two rules (kind, 2-byte string, method class symbolic), probe path 0..3 bytes, method GET; unwind 6",
+          "select_tree_rule([r1,r2]) == select_tree_rule([r2,r1]) == the rule with the greatest (EQUALS>PREFIX, length, method-specific) key", RT, min_covers=3),
+        K("c04::c04_selection_order_independent_1_2", "same with a 1-byte and a 2-byte rule (nested prefixes)", "same", RT, min_covers=3),
     ],
 }
